@@ -1020,3 +1020,138 @@ Example flatten_collision_example :
   flatten_all (fun _ => "x"%string) (fun b k => (b ++ "_")%string) 10 [] [App HAdd [Sym "a"; Num 1]; Sym "x"; App HAdd [Sym "a"; Num 1]]%string
   = Some ([Sym "x"; Sym "x_"; Sym "x"]%string, [(App HAdd [Sym "a"; Num 1], "x"); (Sym "x", "x_")]%string).
 Proof. reflexivity. Qed.
+
+(* ---- D1, memoisation: the memo table never changes an answer ---------------------------------------------------- *)
+Definition memo_ok (r : resolver) (memo : memo_t) : Prop :=
+  forall k v, mlookup memo k = Some v -> resolves_to r (kexpr k) v.
+
+Lemma memo_ok_nil r : memo_ok r [].
+Proof. intros k v H. discriminate. Qed.
+
+Lemma memo_ok_cons r memo k a : memo_ok r memo -> resolves_to r (kexpr k) a -> memo_ok r ((k, a) :: memo).
+Proof.
+  intros Hm Ha k' v. simpl. destruct (vkey_eqb k k') eqn:E.
+  - apply vkey_eqb_eq in E. subst k'. intros H; injection H as <-. exact Ha.
+  - apply Hm.
+Qed.
+
+(* "the table stays sound and, if there is an answer, it is the specified one" *)
+Definition good (r : resolver) (e : expr) (res : outcome expr * memo_t) : Prop :=
+  memo_ok r (snd res) /\ forall y, fst res = Ok y -> resolves_to r e y.
+
+Lemma recursive_step_sound r rec memo vis k self v :
+  (forall m vs x, memo_ok r m -> good r x (rec m vs x)) ->
+  memo_ok r memo -> kexpr k = self ->
+  (forall y, resolves_to r v y -> resolves_to r self y) ->
+  (v = self -> resolves_to r self self) ->
+  good r self (recursive_step rec memo vis k self v).
+Proof.
+  intros Hrec Hm Hk Hv Hself. unfold recursive_step, good.
+  destruct (mlookup memo k) as [b|] eqn:El.
+  - simpl. split; [exact Hm|]. intros y H; injection H as <-. rewrite <- Hk. apply Hm. exact El.
+  - destruct (kmem k vis); [simpl; split; [exact Hm|discriminate]|].
+    destruct (expr_eqb v self) eqn:Ev.
+    + apply expr_eqb_eq in Ev. simpl. split; [apply memo_ok_cons; [exact Hm|rewrite Hk; auto]|].
+      intros y H; injection H as <-. auto.
+    + destruct (Hrec memo (k :: vis) v Hm) as [Hm1 Hy].
+      destruct (rec memo (k :: vis) v) as [[y| |] m1]; simpl in *.
+      * split; [apply memo_ok_cons; [exact Hm1|rewrite Hk; auto]|]. intros y' H; injection H as <-. auto.
+      * split; [exact Hm1|discriminate].
+      * split; [exact Hm1|discriminate].
+Qed.
+
+Lemma seqM_m_sound {A B S} (P : A -> B -> Prop) (Inv : S -> Prop) (f : S -> A -> outcome B * S) :
+  (forall st x, Inv st -> Inv (snd (f st x)) /\ forall y, fst (f st x) = Ok y -> P x y) ->
+  forall l st, Inv st -> Inv (snd (seqM_m f st l)) /\ forall ys, fst (seqM_m f st l) = Ok ys -> Forall2 P l ys.
+Proof.
+  intros Hf. induction l as [|x l IH]; intros st Hi; simpl.
+  - split; [exact Hi|]. intros ys H; injection H as <-. constructor.
+  - destruct (Hf st x Hi) as [Hi1 Hp]. destruct (f st x) as [[y| |] st1]; simpl in *.
+    + destruct (IH st1 Hi1) as [Hi2 Hps]. destruct (seqM_m f st1 l) as [[ys1| |] st2]; simpl in *.
+      * split; [exact Hi2|]. intros ys H; injection H as <-. constructor; auto.
+      * split; [exact Hi2|discriminate].
+      * split; [exact Hi2|discriminate].
+    + split; [exact Hi1|discriminate].
+    + split; [exact Hi1|discriminate].
+Qed.
+
+Lemma value_of_m_S f r memo vis e : value_of_m (S f) r memo vis e =
+  match e with
+  | Num q => (Ok (Num q), memo)
+  | Sym s =>
+      match lookup r s with
+      | None => (Ok (Sym s), memo)
+      | Some (Num q) => (Ok (Num q), memo)
+      | Some v => recursive_step (value_of_m f r) memo vis (KSym s) (Sym s) v
+      end
+  | App h l =>
+      if fast h l then
+        match seqM_m (fun st x => value_of_m f r st vis x) memo l with
+        | (Ok l', memo') => (Ok (App h l'), memo')
+        | (Loop, memo') => (Loop, memo')
+        | (OutOfFuel, memo') => (OutOfFuel, memo')
+        end
+      else recursive_step (value_of_m f r) memo vis (KExpr e) e (subst r e)
+  end.
+Proof. reflexivity. Qed.
+
+Lemma value_of_m_good r : forall fuel memo vis e, memo_ok r memo -> good r e (value_of_m fuel r memo vis e).
+Proof.
+  induction fuel as [|f IH]; intros memo vis e Hm; [split; [exact Hm|discriminate]|].
+  rewrite value_of_m_S. destruct e as [q|s|h l].
+  - split; [exact Hm|]. intros y H; injection H as <-. exists 1. reflexivity.
+  - destruct (lookup r s) as [v|] eqn:El.
+    + assert (G : good r (Sym s) (recursive_step (value_of_m f r) memo vis (KSym s) (Sym s) v)).
+      { apply (recursive_step_sound r (value_of_m f r) memo vis (KSym s) (Sym s) v (fun m vs x Hx => IH m vs x Hx) Hm eq_refl).
+        - intros y [n Hn]. destruct (expr_eqb v (Sym s)) eqn:Ev.
+          + apply expr_eqb_eq in Ev. subst v. exists n. exact Hn.
+          + exists (S n). unfold expand in *. rewrite expandw_S, El, Ev.
+            destruct (expandw n r v) as [[a b]|]; [|discriminate]. exact Hn.
+        - intros ->. apply settled_resolves. right. exact El. }
+      destruct v as [q|s'|h l]; [|exact G|exact G].
+      split; [exact Hm|]. intros y H; injection H as <-. exists 2. unfold expand. rewrite expandw_S, El. reflexivity.
+    + split; [exact Hm|]. intros y H; injection H as <-. exists 1. unfold expand. rewrite expandw_S, El. reflexivity.
+  - destruct (fast h l).
+    + destruct (seqM_m_sound (fun x y => exists n, expand n r x = Some y) (memo_ok r) (fun st x => value_of_m f r st vis x)
+                  (fun st x Hi => IH st vis x Hi) l memo Hm) as [Hm1 Hall].
+      destruct (seqM_m (fun st x => value_of_m f r st vis x) memo l) as [[l'| |] m1]; simpl in *.
+      * split; [exact Hm1|]. intros y H; injection H as <-. apply expand_app. apply Hall. reflexivity.
+      * split; [exact Hm1|discriminate].
+      * split; [exact Hm1|discriminate].
+    + apply (recursive_step_sound r (value_of_m f r) memo vis (KExpr (App h l)) (App h l) (subst r (App h l))
+               (fun m vs x Hx => IH m vs x Hx) Hm eq_refl).
+      * intros y [n Hn]. eapply expand_subst_back; eauto.
+      * intros E. apply normal_expand. exact E.
+Qed.
+
+Theorem value_of_m_sound : forall r fuel memo vis e e' memo',
+  memo_ok r memo -> value_of_m fuel r memo vis e = (Ok e', memo') -> resolves_to r e e' /\ memo_ok r memo'.
+Proof.
+  intros r fuel memo vis e e' memo' Hm H. destruct (value_of_m_good r fuel memo vis e Hm) as [A B].
+  rewrite H in A, B. simpl in *. split; [apply B; reflexivity|exact A].
+Qed.
+
+(* a whole sequence of queries on one resolver object (the table is kept between calls): every answer is the specified
+   one, hence equal to what a fresh memo-free value_of returns *)
+Theorem value_of_seq_sound : forall r fuel es memo, memo_ok r memo ->
+  Forall2 (fun e o => forall e', o = Ok e' -> resolves_to r e e') es (value_of_seq fuel r memo es).
+Proof.
+  intros r fuel. induction es as [|e rest IH]; intros memo Hm; simpl; [constructor|].
+  destruct (value_of_m_good r fuel memo [] e Hm) as [A B].
+  destruct (value_of_m fuel r memo [] e) as [o memo']. simpl in *. constructor; [|apply IH; exact A].
+  intros e' ->. apply B. reflexivity.
+Qed.
+
+Lemma Forall2_combine_In {A B} (P : A -> B -> Prop) l l' x y : Forall2 P l l' -> In (x, y) (combine l l') -> P x y.
+Proof.
+  induction 1 as [|a b l l' Hab _ IH]; simpl; [intros []|]. intros [E|Hin]; [injection E as <- <-; exact Hab|auto].
+Qed.
+
+Corollary memo_does_not_change_answers : forall r fuel fuel' es memo e e' e'',
+  memo_ok r memo -> In (e, Ok e') (combine es (value_of_seq fuel r memo es)) ->
+  value_of fuel' r [] e = Ok e'' -> e' = e''.
+Proof.
+  intros r fuel fuel' es memo e e' e'' Hm Hin Hv.
+  pose proof (Forall2_combine_In _ _ _ _ _ (value_of_seq_sound r fuel es memo Hm) Hin) as G. simpl in G.
+  exact (resolves_to_functional r e e' e'' (G e' eq_refl) (value_of_sound r fuel' [] e e'' Hv)).
+Qed.
